@@ -144,7 +144,7 @@ func Flush() {
 	}
 	sort.Slice(st.Distinct, func(i, j int) bool { return st.Distinct[i] < st.Distinct[j] })
 	b, _ := json.Marshal(st)
-	os.WriteFile(filepath.Join(OutDir(), "stats.json"), b, 0o666)
+	os.WriteFile(filepath.Join(OutDir(), fmt.Sprintf("stats-%d.json", os.Getpid())), b, 0o666)
 }
 
 // Violation announces a failed case to the driver. msg is a one-line description.
@@ -204,6 +204,30 @@ func Check(t *testing.T, label string, prop func(*rapid.T)) {
 		}
 	})
 	rapid.Check(t, prop)
+}
+
+// Fuzz exposes a rapid property as a native (coverage-guided) fuzz target. With
+// VERIF_FUZZ_REPRO set (the driver re-running one crasher alone) a failure is announced
+// as a violation with its trace.
+func Fuzz(f *testing.F, label string, prop func(*rapid.T)) {
+	fn := rapid.MakeFuzz(prop)
+	repro := os.Getenv("VERIF_FUZZ_REPRO") != ""
+	f.Fuzz(func(t *testing.T, b []byte) {
+		if repro {
+			t.Cleanup(func() {
+				if t.Failed() {
+					mu.Lock()
+					msg := lastFail[label]
+					mu.Unlock()
+					if msg == "" {
+						msg = "fuzz target " + label + " failed (see log_tail)"
+					}
+					Violation(label, msg)
+				}
+			})
+		}
+		fn(t, b)
+	})
 }
 
 // ReplayFile returns the case stored in a replay/violation file.
